@@ -1065,3 +1065,40 @@ def conditional_defs(fv, operand):
             if len(sets) >= 2 and len(set(sets)) >= 2:
                 sw.append((s, fv.expr(t.discr)))
     return l, defs, sw
+
+
+def all_defs(fv, name):
+    """rendered definitions of the user variable `name`; a variable initialised from a value chosen by a branch
+    (`let x = if c {A} else {B}`, or the result of an inlined helper) yields every alternative"""
+    from .cfg import render
+    b = fv.b
+    out = []
+    live = fv.live_blocks()
+    for l0 in range(len(b.local_tys)):
+        if b.local_name(l0) != name:
+            continue
+        l, seen = l0, set()
+        while l not in seen:
+            seen.add(l)
+            ds = [d for d in fv.defs.get(l, []) if d[0] in live]
+            if len(ds) == 1 and ds[0][1] != "T" and ds[0][2].kind == "a" and ds[0][2].rv.op == "use" and \
+               ds[0][2].rv.ops[0].place is not None and ds[0][2].rv.ops[0].place.is_local() and \
+               len([d for d in fv.defs.get(ds[0][2].rv.ops[0].place.local, []) if d[0] in live]) > 1:
+                l = ds[0][2].rv.ops[0].place.local
+                continue
+            break
+        for (bi, idx, obj) in fv.defs.get(l, []):
+            if bi not in live:
+                continue
+            if idx == "T":
+                out.append(render(fv._call_expr(obj, 0)))
+            elif obj.kind == "a" and obj.rv.ops:
+                out.append(render(fv.expr(obj.rv.ops[0])))
+    return out
+
+
+def is_new_const(rendered):
+    """the rendering names a constant that does not exist in the reference tree (introduced by the change)"""
+    from . import inline
+    kc = inline.known_consts()
+    return kc is not None and "::" in rendered and rendered not in kc and rendered.rsplit("::", 1)[-1].isupper()
